@@ -59,7 +59,10 @@ def run_oracle(mod, rng, budget, tier, must_find=False):
     seen = set()
     cap = {'quick': 120, 'thorough': 900}[tier] * (2 if must_find else 1)
     t0 = time.time()
+    import contextlib, io
+    sink = io.StringIO()
     try:
+      with contextlib.redirect_stdout(sink):      # the code under test prints advisory messages
         for item in mod.oracle(rng, tier):
             res['evaluations'] += 1
             kind = item.get('kind', '?')
